@@ -2,6 +2,7 @@ package main
 
 import (
 	"fmt"
+	"strings"
 	"go/token"
 	"go/types"
 	"math"
@@ -420,11 +421,11 @@ func describeVal(v ssa.Value) string {
 	case *ssa.BinOp:
 		return "(" + describeVal(x.X) + x.Op.String() + describeVal(x.Y) + ")"
 	case *ssa.Phi:
-		if x.Comment != "" {
-			return x.Comment
-		}
+		return "phi<" + shortType(x.Type()) + ">"
+	case *ssa.Extract:
+		return describeVal(x.Tuple) + "#" + fmt.Sprint(x.Index)
 	}
-	p := path(core)
+	p := canonPath(resolveOnce(core))
 	if len(p) > 0 && p[0] == '%' {
 		if named, ok := core.(interface{ Name() string }); ok {
 			_ = named
@@ -626,3 +627,64 @@ func notBehindKnown(b *ssa.BasicBlock, behind *ssa.BinOp) bool {
 	}
 	return false
 }
+
+// normDecimal maps the equivalent decimal renderings of an integer to one form.
+func normDecimal(s string) string {
+	for _, p := range []string{"strconv.Itoa(", "strconv.FormatUint(", "strconv.FormatInt("} {
+		if strings.HasPrefix(s, p) && strings.HasSuffix(s, ")") {
+			inner := s[len(p) : len(s)-1]
+			if p != "strconv.Itoa(" {
+				if !strings.HasSuffix(inner, ",10") {
+					return s
+				}
+				inner = strings.TrimSuffix(inner, ",10")
+			}
+			return "decimal(" + inner + ")"
+		}
+	}
+	return s
+}
+
+// resolveOnce follows a load of a write-once cell (a local or captured variable
+// with exactly one store) to the stored value: `b64 := base64.StdEncoding`
+// hoisted outside a closure describes as the global itself.
+func resolveOnce(v ssa.Value) ssa.Value {
+	for k := 0; k < 4; k++ {
+		ld, ok := isLoad(v)
+		if !ok {
+			return v
+		}
+		cell := rootCell(ld.X)
+		al, ok := cell.(*ssa.Alloc)
+		if !ok {
+			return v
+		}
+		var stored ssa.Value
+		n := 0
+		for _, fn := range withAnon(topFunc(al.Parent())) {
+			eachInstr(fn, func(i ssa.Instruction) {
+				if st, ok := i.(*ssa.Store); ok && rootCell(st.Addr) == ssa.Value(al) {
+					n++
+					stored = st.Val
+				}
+			})
+		}
+		if n != 1 || stored == nil {
+			return v
+		}
+		if _, isParam := stored.(*ssa.Parameter); isParam {
+			return v // a spilled parameter keeps its own (positional) name
+		}
+		v = stripConvKeep(stored)
+	}
+	return v
+}
+
+func topFunc(fn *ssa.Function) *ssa.Function {
+	for fn.Parent() != nil {
+		fn = fn.Parent()
+	}
+	return fn
+}
+
+func stripConvKeep(v ssa.Value) ssa.Value { return v }
